@@ -42,6 +42,29 @@ def run(rep, tier, seed, replay):
                     rep.violation("correspondence", "has_semantic_literals(): structural definition", {"expr": exprs[k]}, impl=i.get("sem"), model=msem[k])
         if iv == "always" or any(c in exprs[k] for c in "{<") or "**" in exprs[k]:
             rep.distinct.add(exprs[k])
+    # ---- the same pattern obtained another way (into_owned, FromStr, any of one): has_root judged like the glob's;
+    # a glob route (into_owned, FromStr) is a glob and never reports Sometimes
+    if replay is None:
+        subjects = lib.conversion_routes(P, exprs, built)
+        todo3 = []
+        for sj in subjects:
+            rep.stats["route-root:%s:%s" % (sj["route"], sj["root"])] += 1
+            if sj["route"] in ("into-owned", "from-str") and sj["root"] == "sometimes":
+                rep.violation("oracle", "a glob obtained by %s reports has_root = Sometimes" % sj["route"], {"expr": sj["expr"], "route": sj["route"]}, impl="sometimes")
+            if sj["root"] == "always" and not (P.impl[sj["k"]].get("root") == "always" and P.impl[sj["k"]]["pattern"] == sj["pattern"]):
+                todo3.append(sj)
+        for sj, line in zip(todo3, h.ask(["RT %s" % hexs(sj["pattern"]) for sj in todo3])):
+            if line.startswith("unrooted"):
+                w = unhex(line.split()[1]) if len(line.split()) > 1 else ""
+                if sj["route"].startswith("any"):
+                    fa = m.ask(["FA 1 " + hexs(sj["expr"])])[0]
+                    if fa.startswith("out:") and any(t in {f["id"] for f in common.load_findings("C12")[0]} for t in fa[4:].split(",")):
+                        rep.known_hits[[t for t in fa[4:].split(",")][0]] += 1
+                        continue
+                rep.violation("oracle", "the pattern obtained by %s reports has_root = Always but its program matches %r, which does not begin with a separator" % (sj["route"], w),
+                              {"expr": sj["expr"], "route": sj["route"], "path": w}, impl="always")
+            else:
+                rep.stats["route:rooted-and-all-matches-rooted"] += 1
     findings, _ = common.load_findings("C12")
     finding_ids = {f["id"] for f in findings}
     # combinators: any() of rooted / unrooted patterns reports Always only if every match is rooted
